@@ -349,6 +349,71 @@ fn check_repeated_labels(n: usize, rng: &mut Rng, q: &mut Q, rep: &mut Report) {
     }
 }
 
+fn cv<T: From<f32>>(x: f32) -> T {
+    <T as From<f32>>::from(x)
+}
+
+fn large_one<T: phylotree::distance::PairwiseDist + From<f32> + Send + 'static>(n: usize, plant: usize, ty: &str, rep: &mut Report) {
+    let case = format!("mx.large\t{ty}\t{n}\tplant={plant}");
+    let cells = tri(n);
+    let r = guarded(move || -> Result<(), String> {
+        let one: T = cv::<T>(1.0);
+        let mut v: Vec<T> = vec![one; cells];
+        v[plant] = cv::<T>(0.25);
+        let hi = cells - 1 - (plant % 7);
+        if hi != plant {
+            v[hi] = cv::<T>(7.5);
+        }
+        let m = DistanceMatrix::new((0..n).map(|i| format!("t{i}")).collect(), &v);
+        let mut k = 0u64;
+        for ((i, j), _) in m.indexed_iter() {
+            let (wi, wj) = int_inverse(k);
+            if (i as u64, j as u64) != (wi, wj) {
+                return Err(format!("indexed_iter cell {k}: ({i},{j}) expected ({wi},{wj})"));
+            }
+            k += 1;
+        }
+        if k != cells as u64 {
+            return Err(format!("indexed_iter listed {k} cells of {cells}"));
+        }
+        let (pi, pj) = int_inverse(plant as u64);
+        match m.min() {
+            Some(((i, j), d)) if (i as u64, j as u64) == (pi, pj) && d == cv::<T>(0.25) => {}
+            other => return Err(format!("min: {:?} expected (({pi},{pj}), 0.25)", other.map(|x| x.0))),
+        }
+        if hi != plant {
+            let (hi_i, hi_j) = int_inverse(hi as u64);
+            match m.max() {
+                Some(((i, j), d)) if (i as u64, j as u64) == (hi_i, hi_j) && d == cv::<T>(7.5) => {}
+                other => return Err(format!("max: {:?} expected (({hi_i},{hi_j}), 7.5)", other.map(|x| x.0))),
+            }
+        }
+        match m.get(&format!("t{pi}"), &format!("t{pj}")) {
+            Ok(d) if *d == cv::<T>(0.25) => {}
+            other => return Err(format!("get(t{pi},t{pj}): {:?}", other.map(|_| ()))),
+        }
+        Ok(())
+    });
+    rep.count("large_matrices");
+    rep.case(&case, true);
+    match r {
+        Err(_) => rep.oracle("large", "panic", &case, "a positional view of a large matrix panicked"),
+        Ok(Err(e)) => rep.oracle("large", "positional-view-differs", &case, &e),
+        Ok(Ok(())) => {}
+    }
+}
+
+fn large_matrices(thorough: bool, rng: &mut Rng, rep: &mut Report) {
+    let sizes: Vec<usize> = if thorough { vec![4609, 4700, 5793, 8192, 9000] } else { vec![4609 + rng.below(40), 5000 + rng.below(1500)] };
+    for n in sizes {
+        let cells = tri(n);
+        // the unique minimum sits in one of the last rows (where a wrong inverse shows), the maximum near the very end
+        let plant = cells - 1 - rng.below(3 * n);
+        large_one::<f32>(n, plant, "f32", rep);
+        large_one::<f64>(n, plant, "f64", rep);
+    }
+}
+
 pub fn run(thorough: bool, seed: u64, driver: &str, rep: &mut Report) {
     let mut rng = Rng::new(seed);
     let mut q = Q { reqs: vec![], expect: vec![], ctx: vec![] };
@@ -439,6 +504,10 @@ pub fn run(thorough: bool, seed: u64, driver: &str, rep: &mut Report) {
     }
     extrema_special(&mut q, rep);
     q.flush(driver, rep);
+    // ---- matrices of several thousand taxa through the PUBLIC positional views, in both element types ----
+    // (the hook below exercises the free f64 index functions far beyond allocatable sizes; this exercises the methods of the
+    // generic container itself, whose arithmetic could depend on the element type, at the sizes a real analysis has)
+    large_matrices(thorough, &mut rng, rep);
     // ---- index functions through the hook: the crate's floating-point inverse vs the integer inverse ----
     let mut checked = 0u64;
     let mut test_k = |k: u64, rep: &mut Report| {
